@@ -237,10 +237,18 @@ def validate(chk: core.Check, prop: str, outs: List[Dict[str, Any]], extra_lines
     by_tid: Dict[int, List[str]] = {}
     others: Dict[str, int] = {}
     by_out = {o["tid"]: o for o in outs}
+    # Trace.* clauses say the projection and the monitor are out of step.  On a tree whose traces are otherwise clean that is a
+    # fault of the machinery (exit 2); on a tree that violates properties elsewhere in the same batch it is the implementation
+    # leaving the protocol (rows appended outside iterations, ...): recorded, and the property clauses give the verdict
+    mach = [(tid, clause) for tid, clause in fails if scen.owner(clause) == "machinery"]
+    if mach and len(mach) == len(fails):
+        raise core.MachineryError(f"trace monitor reported {mach[0][1]} for trace {mach[0][0]}: projection/monitor out of step")
+    if mach:
+        chk.extra["trace_protocol_clauses_on_a_violating_tree"] = sorted({c for _, c in mach})
     for tid, clause in fails:
         own = scen.owner(clause)
         if own == "machinery":
-            raise core.MachineryError(f"trace monitor reported {clause} for trace {tid}: projection/monitor out of step")
+            continue
         if own != prop:
             others[clause] = others.get(clause, 0) + 1
             continue
